@@ -66,3 +66,50 @@ def step_names(shape):
     raise ValueError(kind)
 
 
+
+
+def dag_of(shape):
+    """The unfolded job DAG of a shape for the Coq model: list of (job name | None, [input indexes], op term).
+    Index 0 is the workflow input (never lost, never fails)."""
+    kind, fil = shape["kind"], shape["type"] == "file"
+
+    def q(s):
+        return '"' + s + '"'
+
+    def one(label):
+        return f"OCat {q(label)}" if fil else f"OInc {len(label)}"
+
+    d = [(None, [], 'OConstS "seed"' if fil else "OConstN 3")]
+    if kind == "pipeline":
+        for i in range(shape["n"]):
+            d.append((f"/s{i}/0", [len(d) - 1], one(f"s{i}")))
+        return d
+    if kind == "scatter":
+        w = shape["width"]
+        for i in range(shape["pre"]):
+            d.append((f"/a{i}/0", [len(d) - 1], one(f"a{i}")))
+        d.append(("/sp/0", [len(d) - 1], f"OSplit {w}" if fil else f"OSplitN {w}"))
+        sp = len(d) - 1
+        prev = []
+        for i in range(shape["depth"]):
+            cur = []
+            for j in range(w):
+                if i == 0:
+                    d.append((f"/b0/0.{j}", [sp], f"OElemCat {j} {q('b0')}" if fil else f"OElemInc {j} 2"))
+                else:
+                    d.append((f"/b{i}/0.{j}", [prev[j]], one(f"b{i}")))
+                cur.append(len(d) - 1)
+            prev = cur
+        d.append(("/g/0", prev, f"OJoin {q('g')}" if fil else "OSum 1"))
+        for i in range(shape["post"]):
+            d.append((f"/c{i}/0", [len(d) - 1], one(f"c{i}")))
+        return d
+    if kind == "diamond":
+        d.append(("/root/0", [0], one("root")))
+        brs = []
+        for i in range(shape["branches"]):
+            d.append((f"/br{i}/0", [1], one(f"br{i}")))
+            brs.append(len(d) - 1)
+        d.append(("/join/0", brs, one("join")))
+        return d
+    raise ValueError(kind)
